@@ -1820,8 +1820,13 @@ func (mvcc *MVCCLevelDB) RawBatchGet(cf string, keys [][]byte) [][]byte {
 	values := make([][]byte, 0, len(keys))
 	for _, key := range keys {
 		value, err := db.Get(key, nil)
-		if err != leveldb.ErrNotFound {
-			tikverr.Log(err)
+		if err != nil {
+			if err != leveldb.ErrNotFound {
+				tikverr.Log(err)
+			}
+			// leveldb returns an empty non-nil slice together with ErrNotFound
+			// when it meets the tombstone of a deleted key.
+			value = nil
 		}
 		values = append(values, value)
 	}
